@@ -15,6 +15,13 @@ import (
 type Hooks struct {
 	OnPanic *Script
 	OnError *Script
+	// Sub predicts a nested request in the model (set by PModel.EnableSub); nil = nested requests disabled
+	Sub func(method, path string) string
+}
+
+// SubText renders the outcome of a nested request for the parent's trace.
+func SubText(out Outcome) string {
+	return out.Trace + "\nwriter: " + out.Log + "\nescaped: " + labelOrNil(out.Escaped)
 }
 
 func label(v any) string {
@@ -39,6 +46,7 @@ func ModelDispatch(chain []*Script, hooks Hooks, rec *RecWriter, req *http.Reque
 	w := &ModelWriter{U: rec}
 	m = NewMCtx(chain, w, req, ps, tr)
 	m.NoAbt = noAbt
+	m.SubFn = hooks.Sub
 	func() {
 		defer func() {
 			if v := recover(); v != nil {
@@ -69,7 +77,9 @@ type World struct {
 	nextID int
 	reqs   map[string]*ReqState
 	nreq   int
-	Sched  *Sched // non-nil: handlers park at OpYield
+	Sched  *Sched      // non-nil: handlers park at OpYield
+	Router *rux.Router // set by Program.Apply: the router nested requests go to
+	Subs   bool        // nested requests (OpSub) enabled
 }
 
 // ReqState is the real-side state of one in-flight request.
@@ -82,8 +92,50 @@ type ReqState struct {
 	Ctx   *rux.Context // the context the first handler saw (pointer identity = pool reuse)
 	First func(c *rux.Context)
 
+	Nested bool // this is a nested request issued by a handler
+
 	Recovered  any // what the OnPanic hook found under CTXRecoverResult
 	NRecovered int // how often the OnPanic hook ran
+
+	cmu      sync.Mutex
+	Copies   []*rux.Context // contexts obtained by c.Copy() and kept beyond the request
+	copyBase []string       // what each copy held when its request ended
+}
+
+// AddCopy records a copy taken by a handler.
+func (st *ReqState) AddCopy(c *rux.Context) {
+	st.cmu.Lock()
+	st.Copies = append(st.Copies, c)
+	st.cmu.Unlock()
+}
+
+// CopyText renders what a copied context holds (user data and parameters).
+func CopyText(c *rux.Context) string {
+	return "data={" + dataText(c.Data()) + "} params={" + paramsText(c.Params) + "}"
+}
+
+// FreezeCopies records what the copies hold now (called right after their request ended).
+func (st *ReqState) FreezeCopies() {
+	st.cmu.Lock()
+	defer st.cmu.Unlock()
+	st.copyBase = st.copyBase[:0]
+	for _, c := range st.Copies {
+		st.copyBase = append(st.copyBase, CopyText(c))
+	}
+}
+
+// CheckCopies verifies that the copies still hold what they held when their request ended.
+func (st *ReqState) CheckCopies() error {
+	st.cmu.Lock()
+	defer st.cmu.Unlock()
+	for i, c := range st.Copies {
+		if i < len(st.copyBase) {
+			if now := CopyText(c); now != st.copyBase[i] {
+				return fmt.Errorf("a context copy taken by request %s held %s when that request ended, now it holds %s", st.ID, st.copyBase[i], now)
+			}
+		}
+	}
+	return nil
 }
 
 // NewWorld creates an empty world.
@@ -122,7 +174,14 @@ func (w *World) Handler(s *Script) rux.HandlerFunc {
 				st.First(c)
 			}
 		}
-		rc := &RCtx{C: c, NoAbt: st.NoAbt}
+		rc := &RCtx{C: c, NoAbt: st.NoAbt, St: st}
+		if w.Subs && !st.Nested && w.Router != nil {
+			rc.SubFn = func(method, path string) string {
+				st2 := w.NewRequest(method, path)
+				st2.Nested = true // one level only
+				return SubText(st2.Serve(w.Router))
+			}
+		}
 		if w.Sched != nil {
 			id := st.ID
 			rc.Y = func() { w.Sched.Yield(id) }
@@ -139,7 +198,7 @@ func (w *World) PanicHook(s *Script) rux.HandlerFunc {
 		st.Recovered = v
 		st.NRecovered++
 		st.Tr.Add("OnPanic recovered=%s", label(v))
-		Run(s, &RCtx{C: c, NoAbt: st.NoAbt}, st.Tr)
+		Run(s, &RCtx{C: c, NoAbt: st.NoAbt, St: st}, st.Tr)
 	}
 }
 
@@ -148,7 +207,7 @@ func (w *World) ErrorHook(s *Script) rux.HandlerFunc {
 	return func(c *rux.Context) {
 		st := w.state(c.Req)
 		st.Tr.Add("OnError errors=%d", len(c.Errors))
-		Run(s, &RCtx{C: c, NoAbt: st.NoAbt}, st.Tr)
+		Run(s, &RCtx{C: c, NoAbt: st.NoAbt, St: st}, st.Tr)
 	}
 }
 
@@ -170,6 +229,7 @@ func (st *ReqState) Serve(r *rux.Router) (out Outcome) {
 		defer func() { out.Escaped = recover() }()
 		r.ServeHTTP(st.Rec, st.Req)
 	}()
+	st.FreezeCopies()
 	out.Trace, out.Log = st.Tr.String(), st.Rec.Log()
 	return
 }
